@@ -60,6 +60,7 @@ impl Deserialize for Block {
                 Ok(arr)
             })()
                 .map_err(|e| e.annotate("invalid_transactions"))?;
+            read_len.finish()?;
             match len {
                 cbor_event::Len::Len(_) => (),
                 cbor_event::Len::Indefinite => match raw.special()? {
